@@ -24,6 +24,26 @@ pub struct Case {
     /// call history: the same stack with every coupling's scaling replaced by this value is evaluated on the same joints / pose first
     #[serde(default)]
     pub earlier_scaling: Option<f64>,
+    /// the innermost robot carries joint limits: a plain (non-wrapping) window given as distances below / above the de-coupled generating joints
+    #[serde(default)]
+    pub window: Option<([f64; 6], [f64; 6])>,
+}
+
+/// The innermost robot of the case: with joint limits around the de-coupled generating vector when the case asks for them.
+fn inner_robot(c: &Case, layers: &[Layer]) -> rs_opw_kinematics::kinematics_impl::OPWKinematics {
+    match &c.window {
+        None => opw(&c.robot),
+        Some((lo, hi)) => {
+            let inner = inner_joints(layers, &c.j);
+            let centre: [f64; 6] = std::array::from_fn(|k| {
+                let x = inner[k].rem_euclid(TWO_PI);
+                if x > PI { x - TWO_PI } else { x }
+            });
+            let from: [f64; 6] = std::array::from_fn(|k| centre[k] - lo[k]);
+            let to: [f64; 6] = std::array::from_fn(|k| centre[k] + hi[k]);
+            opw_c(&c.robot, rs_opw_kinematics::constraints::Constraints::new(from, to, 0.0))
+        }
+    }
 }
 
 fn axialize(layers: &[Layer]) -> Vec<Layer> {
@@ -43,7 +63,10 @@ fn check_case(c: &Case, ctx: &mut Ctx, enumerated: bool) -> Res {
     let what = ENTRY_NAMES[entry as usize];
     let layers = if entry >= 2 { axialize(&c.layers) } else { c.layers.clone() };
     let name = stack_name(&layers);
-    let kin = build_stack(Arc::new(opw(r)), &layers);
+    let kin = build_stack(Arc::new(inner_robot(c, &layers)), &layers);
+    if c.window.is_some() {
+        ctx.class("innermost robot with joint limits (plain windows around the de-coupled generating joints)");
+    }
     let n_para = layers.iter().filter(|l| matches!(l, Layer::Para { .. })).count();
     let scale_max = layers.iter().map(|l| if let Layer::Para { scaling, .. } = l { scaling.abs() } else { 0.0 }).fold(0.0, f64::max);
     let qmax = c.j.iter().fold(0.0f64, |a, b| a.max(b.abs())) * (1.0 + scale_max).powi(n_para as i32);
@@ -54,7 +77,7 @@ fn check_case(c: &Case, ctx: &mut Ctx, enumerated: bool) -> Res {
     let tcp = model_forward(r, &layers, &c.j);
     if let Some(sc) = c.earlier_scaling {
         let l2: Vec<Layer> = layers.iter().map(|l| if let Layer::Para { driven, coupled, .. } = l { Layer::Para { driven: *driven, coupled: *coupled, scaling: sc } } else { *l }).collect();
-        let k2 = build_stack(Arc::new(opw(r)), &l2);
+        let k2 = build_stack(Arc::new(inner_robot(c, &l2)), &l2);
         let _ = no_panic(|| k2.forward(&c.j)).map_err(|m| viol!("no panic", "forward (earlier stack): {}", m))?;
         let _ = no_panic(|| k2.forward_with_joint_poses(&c.j)).map_err(|m| viol!("no panic", "forward_with_joint_poses (earlier stack): {}", m))?;
         let _ = call_entry(k2.as_ref(), entry, &to_na(&tcp), &c.prev.resolve(Some(c.j)), c.j6).map_err(|m| viol!("no panic", "{} (earlier stack): {}", what, m))?;
@@ -118,7 +141,7 @@ impl Property for C16 {
         "C16"
     }
     fn rule(&self) -> String {
-        "all 30 (driven != coupled) index pairs enumerated with scalings {1, -1, 0.5, 0} x catalogue robots x four entry points; random: 1..2 couplings with scaling in [-2,2] u {0,1,-1}, nested with Tool/Base/Frame (depth <= 3) x robots x joint vectors x previous x four entry points. \
+        "all 30 (driven != coupled) index pairs enumerated with scalings {1, -1, 0.5, 0} x catalogue robots x four entry points; random: 1..2 couplings with scaling in [-2,2] u {0,1,-1}, nested with Tool/Base/Frame (depth <= 3) x robots (bare, or with joint limits given as plain windows around the de-coupled generating joints) x joint vectors x previous x four entry points. \
          Non-trivial: the inverse call returned at least one answer (each mapped back through the hand-composed coupled forward)."
             .into()
     }
@@ -144,7 +167,7 @@ impl Property for C16 {
                     for entry in 0..4u8 {
                         let robot = cat[(n + si) % cat.len()].1;
                         n += 1;
-                        let case = Case { robot, layers: vec![Layer::Para { driven, coupled, scaling: *scaling }], j, prev: PrevGen::Source, entry, j6: 0.25, earlier_scaling: None };
+                        let case = Case { robot, layers: vec![Layer::Para { driven, coupled, scaling: *scaling }], j, prev: PrevGen::Source, entry, j6: 0.25, earlier_scaling: None, window: if n % 3 == 0 { Some(([0.5; 6], [0.4; 6])) } else { None } };
                         ctx.evaluations += 1;
                         if let Err(v) = check_case(&case, ctx, true) {
                             return Err((case, v));
@@ -164,8 +187,8 @@ impl Property for C16 {
             3 => (para_strategy(), tbf_layer(1.0), any::<bool>()).prop_map(|(p, t, o)| if o { vec![p, t] } else { vec![t, p] }),
             2 => (para_strategy(), tbf_layer(1.0), para_strategy()).prop_map(|(a, t, b)| vec![a, t, b]),
         ];
-        (prop_oneof![3 => robot_sane(DofChoice::Six), 1 => robot_negative(DofChoice::Six)], layers, joints_mixed(), prev_2pi(), 0u8..4, -3.0..3.0f64, prop_oneof![3 => Just(None), 1 => (-2.0..2.0f64).prop_map(Some)])
-            .prop_map(|(robot, layers, j, prev, entry, j6, earlier_scaling)| Case { robot, layers, j, prev, entry, j6, earlier_scaling })
+        (prop_oneof![3 => robot_sane(DofChoice::Six), 1 => robot_negative(DofChoice::Six)], layers, joints_mixed(), prev_2pi(), 0u8..4, -3.0..3.0f64, prop_oneof![3 => Just(None), 1 => (-2.0..2.0f64).prop_map(Some)], prop_oneof![2 => Just(None), 1 => (prop::array::uniform6(0.2..1.4f64), prop::array::uniform6(0.2..1.4f64)).prop_map(Some)])
+            .prop_map(|(robot, layers, j, prev, entry, j6, earlier_scaling, window)| Case { robot, layers, j, prev, entry, j6, earlier_scaling, window })
             .boxed()
     }
     fn check(&self, c: &Case, ctx: &mut Ctx) -> Res {
